@@ -997,6 +997,7 @@ fn run_case(line: &str) -> Option<String> {
     // final RIB (before the marker route goes in)
     let mut extra = 0u64;
     let mut rib: Vec<(Option<u64>, Option<u64>)> = vec![(None, None); uni.len()];
+    let mut stale: Vec<bool> = vec![false; uni.len()];
     let (mut rows_pre, mut rows_post) = (0u64, 0u64);
     for sh in tables.shards.iter() {
         let t = sh.lock().unwrap();
@@ -1004,7 +1005,10 @@ fn run_case(line: &str) -> Option<String> {
             for r in t.rtable.iter_reach(f) {
                 rows_pre += 1;
                 match key_of(&r.source.remote_addr, f, &r.net) {
-                    Some(i) => rib[i].0 = Some(val_of(&r.attr, r.nexthop)),
+                    Some(i) => {
+                        rib[i].0 = Some(val_of(&r.attr, r.nexthop));
+                        stale[i] = r.source.is_stale();
+                    }
                     None => extra += 1,
                 }
             }
@@ -1409,6 +1413,7 @@ fn run_case(line: &str) -> Option<String> {
                 Term::tag("rets", rets),
                 Term::tag("subs", subs_t),
                 Term::tag("rib", rib.into_iter().map(|(a, b)| Term::list(vec![opt_t(a), opt_t(b)])).collect()),
+                Term::tag("stale", stale.into_iter().map(Term::boolean).collect()),
                 Term::tag("rows", vec![Term::nat(rows_pre), Term::nat(rows_post)]),
                 Term::tag("extra", vec![Term::nat(extra)]),
             ],
